@@ -1542,7 +1542,24 @@ impl CoreRuntime {
         }
         if let (Some(kb_meta), Some(kb)) = (self.metadata.keyboard.clone(), self.keyboard.as_mut())
         {
-            if let Ok(snapshot) = serde_json::from_value::<KeyboardSnapshot>(kb_meta) {
+            // Python bundles wrap the matrix state in a handler record and leave out the
+            // derived fields; accept that layout as well as our own.
+            let mut kb_value = kb_meta.get("matrix").cloned().unwrap_or(kb_meta);
+            if let Some(obj) = kb_value.as_object_mut() {
+                if !obj.contains_key("fifo_len") {
+                    let size = obj
+                        .get("fifo")
+                        .and_then(|v| v.as_array())
+                        .map(|ring| ring.len() as u64)
+                        .filter(|len| *len > 0)
+                        .unwrap_or(8);
+                    let head = obj.get("head").and_then(|v| v.as_u64()).unwrap_or(0) % size;
+                    let tail = obj.get("tail").and_then(|v| v.as_u64()).unwrap_or(0) % size;
+                    obj.insert("fifo_len".to_string(), json!((tail + size - head) % size));
+                }
+                obj.entry("active_columns").or_insert_with(|| json!([]));
+            }
+            if let Ok(snapshot) = serde_json::from_value::<KeyboardSnapshot>(kb_value) {
                 kb.load_snapshot_state(&snapshot);
             }
         }
